@@ -48,27 +48,27 @@ theorem rollUp_spec (cf : Fn) (r : Regs) (n : Nat) (h : n ≤ r.sp) :
 
 
 /-- What OpCall does to the machine, in terms of the argument count operand `a0`. -/
-inductive CallPost (code : Code) (f : Fn) (ip : Int) (c : Core) : ExecOut → Prop
+inductive CallPost (code : Code) (f : Fn) (ip : Int) (a0 : Nat) (c : Core) : ExecOut → Prop
   | builtin (c' : Core) :
-      c'.regs.sp + byteAt f (ip + 1) = c.regs.sp → c'.regs.globals = c.regs.globals → c'.regs.fobjs = c.regs.fobjs →
-      c'.cur = { c.cur with ip := ip + 2 } → c'.callers = c.callers → CallPost code f ip c (.next c' true)
+      c'.regs.sp + a0 = c.regs.sp → c'.regs.globals = c.regs.globals → c'.regs.fobjs = c.regs.fobjs →
+      c'.cur = { c.cur with ip := ip + 2 } → c'.callers = c.callers → CallPost code f ip a0 c (.next c' true)
   | tail (c' : Core) (cr : Nat) :
-      c'.regs.sp + byteAt f (ip + 1) + 1 = c.regs.sp → c'.regs.globals = c.regs.globals → c'.regs.fobjs = c.regs.fobjs →
+      c'.regs.sp + a0 + 1 = c.regs.sp → c'.regs.globals = c.regs.globals → c'.regs.fobjs = c.regs.fobjs →
       c'.cur.ip = -1 → c'.cur.fnIdx = c.cur.fnIdx → c'.cur.bp = c.cur.bp → c'.cur.free = c.cur.free →
-      c'.callers = c.callers → isSelfTail f c.cur cr (ip + 2) = true → CallPost code f ip c (.next c' false)
+      c'.callers = c.callers → isSelfTail f c.cur cr (ip + 2) = true → CallPost code f ip a0 c (.next c' false)
   | push (c' : Core) (cr k : Nat) (free : List Nat) (cf : Fn) (ref : Nat) :
       c.regs.fobjs[cr]? = some (k, free) → code.consts[k]? = some (.fn cf ref) →
-      c'.cur.fnIdx = k + 1 → c'.cur.ip = -1 → c'.cur.bp + byteAt f (ip + 1) = c.regs.sp → c'.cur.free = free →
+      c'.cur.fnIdx = k + 1 → c'.cur.ip = -1 → c'.cur.bp + a0 = c.regs.sp → c'.cur.free = free →
       c'.regs.sp = c'.cur.bp + cf.numLocals →
       c'.regs.globals = c.regs.globals → c'.regs.fobjs = c.regs.fobjs →
-      c'.callers = { c.cur with ip := ip + 2 } :: c.callers → CallPost code f ip c (.next c' false)
+      c'.callers = { c.cur with ip := ip + 2 } :: c.callers → CallPost code f ip a0 c (.next c' false)
 
-theorem finishCompiled_spec (code : Code) (f : Fn) (ip : Int) (c : Core) (r : Regs) (numArgs cr k : Nat)
+theorem finishCompiled_spec (code : Code) (f : Fn) (ip : Int) (a0 : Nat) (c : Core) (r : Regs) (numArgs cr k : Nat)
     (free : List Nat) (cf : Fn) (ref : Nat)
     (hfo : c.regs.fobjs[cr]? = some (k, free)) (hk : code.consts[k]? = some (.fn cf ref))
-    (hsp : r.sp + byteAt f (ip + 1) = c.regs.sp + numArgs) (hn : byteAt f (ip + 1) + 1 ≤ c.regs.sp)
+    (hsp : r.sp + a0 = c.regs.sp + numArgs) (hn : a0 + 1 ≤ c.regs.sp)
     (hgl : r.globals = c.regs.globals) (hfob : r.fobjs = c.regs.fobjs) :
-    SafeX (finishCompiled f (ip + 2) c r numArgs cr k free cf) (CallPost code f ip c) := by
+    SafeX (finishCompiled f (ip + 2) c r numArgs cr k free cf) (CallPost code f ip a0 c) := by
   unfold finishCompiled
   split
   · rename_i ht
@@ -85,9 +85,9 @@ theorem finishCompiled_spec (code : Code) (f : Fn) (ip : Int) (c : Core) (r : Re
       refine CallPost.push _ cr k free cf ref hfo hk rfl rfl ?_ rfl rfl hgl hfob rfl
       dsimp only; omega
 
-theorem execCall_spec (code : Code) (f : Fn) (ip : Int) (c : Core)
-    (hn : byteAt f (ip + 1) + 1 ≤ c.regs.sp) (hs : byteAt f (ip + 2) = 1 → 1 ≤ byteAt f (ip + 1)) :
-    SafeX (execCall code f ip c) (CallPost code f ip c) := by
+theorem execCall_spec (code : Code) (f : Fn) (ip : Int) (a0 a1 : Nat) (c : Core)
+    (hn : a0 + 1 ≤ c.regs.sp) (hs : a1 = 1 → 1 ≤ a0) :
+    SafeX (execCall code f ip a0 a1 c) (CallPost code f ip a0 c) := by
   unfold execCall
   dsimp only
   refine SafeX_bind (SafeX_need (by omega)) ?_; intro _ _
@@ -106,7 +106,7 @@ theorem execCall_spec (code : Code) (f : Fn) (ip : Int) (c : Core)
         dsimp only at g1 g2 g3 ⊢
         split
         · split <;> exact SafeX_rtE _
-        · refine finishCompiled_spec code f ip c r2 n2 cr k free cf ref ?_ hk ?_ hn ?_ ?_
+        · refine finishCompiled_spec code f ip a0 c r2 n2 cr k free cf ref ?_ hk ?_ hn ?_ ?_
           · rw [← h3]; exact hfo
           · omega
           · rw [g2, h2]
@@ -130,9 +130,9 @@ theorem execCall_spec (code : Code) (f : Fn) (ip : Int) (c : Core)
   · exact SafeX_rtE _
 
 /-- What OpReturn does. -/
-theorem execReturn_spec (f : Fn) (ip : Int) (c : Core) (caller : Frame) (rest : List Frame)
-    (hc : c.callers = caller :: rest) (hv : byteAt f (ip + 1) = 1 → 1 ≤ c.regs.sp) :
-    SafeX (execReturn f ip c) (fun o => ∃ c', o = .next c' false ∧ c'.cur = caller ∧ c'.callers = rest ∧
+theorem execReturn_spec (a0 : Nat) (c : Core) (caller : Frame) (rest : List Frame)
+    (hc : c.callers = caller :: rest) (hv : a0 = 1 → 1 ≤ c.regs.sp) :
+    SafeX (execReturn a0 c) (fun o => ∃ c', o = .next c' false ∧ c'.cur = caller ∧ c'.callers = rest ∧
       c'.regs.sp = c.cur.bp ∧ c'.regs.globals = c.regs.globals ∧ c'.regs.fobjs = c.regs.fobjs) := by
   unfold execReturn
   dsimp only
@@ -141,7 +141,7 @@ theorem execReturn_spec (f : Fn) (ip : Int) (c : Core) (caller : Frame) (rest : 
       | caller :: rest => do
         let r ← em (setSlot { stack := c.regs.stack, sp := c.cur.bp, globals := c.regs.globals, fobjs := c.regs.fobjs }
                 (c.cur.bp - 1)
-                (if (byteAt f (ip + 1) == 1 && !c.cur.discard) = true then getSlot c.regs (c.regs.sp - 1)
+                (if (a0 == 1 && !c.cur.discard) = true then getSlot c.regs (c.regs.sp - 1)
                 else Value.undef))
         pure (ExecOut.next { regs := r, cur := caller, callers := rest } false))
       (fun o => ∃ c', o = .next c' false ∧ c'.cur = caller ∧ c'.callers = rest ∧
